@@ -36,7 +36,7 @@ def one(path):
 
 if __name__ == "__main__":
     d = sys.argv[1]
-    files = sorted(glob.glob(os.path.join(d, "C*", "[a-d].patch.diff")))
+    files = sorted(glob.glob(os.path.join(d, "C*", "[a-z].patch.diff")))
     res = {}
     with Pool(5) as pool:
         for name, out in pool.imap_unordered(one, files):
